@@ -292,10 +292,20 @@ DigitCount(n) == IF n = <<>> THEN 0
                  ELSE 4 * (Len(n) - 1) + (IF n[Len(n)] >= 1000 THEN 4 ELSE IF n[Len(n)] >= 100 THEN 3
                                           ELSE IF n[Len(n)] >= 10 THEN 2 ELSE 1)
 Finite(v) ==
-    IF v.p2 = 0 /\ DigitCount(v.n) + v.p10 <= 300 THEN TRUE
+    IF v.n = <<>> THEN TRUE
+    ELSE IF v.p2 = 0 /\ DigitCount(v.n) + v.p10 <= 300 THEN TRUE
+    ELSE IF v.p2 = 0 /\ DigitCount(v.n) + v.p10 > 310 THEN FALSE
     ELSE IF v.p10 = 0 /\ 4 * DigitCount(v.n) + v.p2 <= 1000 THEN TRUE
+    ELSE IF v.p10 = 0 /\ 3 * (DigitCount(v.n) - 1) + v.p2 > 1030 THEN FALSE
     ELSE BNLt(BNMul(BNMul(v.n, BNPow10(Max(v.p10, 0))), BNPow2(Max(v.p2, 0))),
               BNMul(BNMul(MaxFiniteBound, BNPow10(Max(0 - v.p10, 0))), BNPow2(Max(0 - v.p2, 0))))
+
+(* does v round to zero:  v <= 2^-1075  (cheap bounds first: 10^(d-1) <= n < 10^d for d = DigitCount(n)) *)
+RoundsToZero(v) ==
+    IF v.n = <<>> THEN TRUE
+    ELSE IF v.p2 = 0 /\ DigitCount(v.n) + v.p10 >= 0 - 300 THEN FALSE
+    ELSE IF v.p10 = 0 /\ 3 * (DigitCount(v.n) - 1) + v.p2 >= 0 - 1000 THEN FALSE
+    ELSE Nearest(v, <<>>, MinE)
 
 -----------------------------------------------------------------------------
 (* contexts in which a literal is embedded, and the domain of the contract *)
@@ -310,10 +320,10 @@ WF(s, ctx) ==
     /\ ctx \in Contexts
     /\ CASE k = "int"   -> IF ctx = "neg" THEN BNLe(IntValue(s), Two63) ELSE BNLt(IntValue(s), Two63)
          [] k = "rune"  -> TRUE
-         [] k = "float" -> /\ ExpDigits(s) <= 5 /\ Finite(FloatValue(s))
+         [] k = "float" -> /\ ExpDigits(s) <= 4 /\ Finite(FloatValue(s))
                            \* -x for an x that rounds to 0 is about constant arithmetic (Go has no negative zero constant)
-                           /\ (ctx = "neg" => ~Nearest(FloatValue(s), <<>>, MinE))
-         [] k = "imag"  -> ctx # "neg" /\ ImagExpDigits(s) <= 5 /\ Finite(ImagValue(s))
+                           /\ (ctx = "neg" => ~RoundsToZero(FloatValue(s)))
+         [] k = "imag"  -> ctx # "neg" /\ ImagExpDigits(s) <= 4 /\ Finite(ImagValue(s))
          [] k \in {"string", "raw"} -> ctx # "neg"
          [] OTHER -> FALSE
 
